@@ -313,6 +313,17 @@ pub fn worker_main(spec: &WorkerSpec) -> i32 {
     0
 }
 
+pub fn stall_limit(launcher: &Launcher) -> std::time::Duration {
+    let secs = std::env::var("VERIF_STALL_S")
+        .ok()
+        .and_then(|s| s.parse().ok())
+        .unwrap_or(match launcher {
+            Launcher::Native => 120,
+            Launcher::Miri => 900,
+        });
+    std::time::Duration::from_secs(secs)
+}
+
 /// How to start a worker: natively (this executable) or under Miri.
 #[derive(Clone, Debug, PartialEq)]
 pub enum Launcher {
@@ -364,6 +375,7 @@ pub struct WorkerResult {
     pub exit: String,
     pub stderr_tail: String,
     pub sets: Vec<(String, Vec<u64>)>,
+    pub hung: bool,
 }
 
 pub fn run_worker(launcher: &Launcher, spec: &WorkerSpec) -> WorkerResult {
@@ -395,7 +407,29 @@ pub fn run_worker(launcher: &Launcher, spec: &WorkerSpec) -> WorkerResult {
     let mut last_case: Option<String> = None;
     let mut case_header: Option<String> = None;
     let mut case_ops: Vec<String> = Vec::new();
-    for line in BufReader::new(stdout).lines().map_while(Result::ok) {
+    // watchdog: a worker that produces no protocol line for too long hangs
+    // (unbounded loop in the code under test); it is killed and the run in
+    // flight is treated like a crash of class "hang"
+    let stall_limit = stall_limit(launcher);
+    let (tx, rx) = std::sync::mpsc::channel::<String>();
+    let out_thread = std::thread::spawn(move || {
+        for line in BufReader::new(stdout).lines().map_while(Result::ok) {
+            if tx.send(line).is_err() {
+                break;
+            }
+        }
+    });
+    let mut hung = false;
+    loop {
+        let line = match rx.recv_timeout(stall_limit) {
+            Ok(l) => l,
+            Err(std::sync::mpsc::RecvTimeoutError::Disconnected) => break,
+            Err(std::sync::mpsc::RecvTimeoutError::Timeout) => {
+                hung = true;
+                let _ = child.kill();
+                break;
+            }
+        };
         let (tag, rest) = match line.split_once(' ') {
             Some(p) => p,
             None => continue,
@@ -448,11 +482,15 @@ pub fn run_worker(launcher: &Launcher, spec: &WorkerSpec) -> WorkerResult {
         }
     }
     let status = child.wait();
+    drop(rx);
+    let _ = out_thread.join();
     res.stderr_tail = err_thread.join().unwrap_or_default();
     res.exit = match &status {
+        Ok(_) if hung => format!("killed by the watchdog: no progress for {} s (hang)", stall_limit.as_secs()),
         Ok(s) => format!("{s}"),
         Err(e) => format!("wait failed: {e}"),
     };
+    res.hung = hung;
     let ok = matches!(&status, Ok(s) if s.success());
     if !ok || res.stats.is_none() {
         res.crashed_run = in_flight;
@@ -626,11 +664,59 @@ pub fn case_in_child(launcher: &Launcher, case: &J) -> Result<Option<(String, St
     ));
     std::fs::write(&path, case.to_string()).map_err(|e| e.to_string())?;
     let mut cmd = command_for(launcher, &["case".to_string(), path.display().to_string()]);
-    let out = cmd
+    let mut child = cmd
         .stdin(Stdio::null())
-        .output()
+        .stdout(Stdio::piped())
+        .stderr(Stdio::piped())
+        .spawn()
         .map_err(|e| format!("spawn: {e}"))?;
+    // bounded wait: a case that does not finish is a hang
+    let limit = stall_limit(launcher);
+    let t0 = Instant::now();
+    let mut timed_out = false;
+    let mut so = child.stdout.take().unwrap();
+    let mut se = child.stderr.take().unwrap();
+    let t_out = std::thread::spawn(move || {
+        let mut b = Vec::new();
+        let _ = std::io::Read::read_to_end(&mut so, &mut b);
+        b
+    });
+    let t_err = std::thread::spawn(move || {
+        let mut b = Vec::new();
+        let _ = std::io::Read::read_to_end(&mut se, &mut b);
+        b
+    });
+    let status = loop {
+        match child.try_wait() {
+            Ok(Some(s)) => break s,
+            Ok(None) => {
+                if t0.elapsed() > limit {
+                    timed_out = true;
+                    let _ = child.kill();
+                    break child.wait().map_err(|e| format!("wait: {e}"))?;
+                }
+                std::thread::sleep(std::time::Duration::from_millis(3));
+            }
+            Err(e) => return Err(format!("wait: {e}")),
+        }
+    };
+    struct Out {
+        status: std::process::ExitStatus,
+        stdout: Vec<u8>,
+        stderr: Vec<u8>,
+    }
+    let out = Out {
+        status,
+        stdout: t_out.join().unwrap_or_default(),
+        stderr: t_err.join().unwrap_or_default(),
+    };
     let _ = std::fs::remove_file(&path);
+    if timed_out {
+        return Ok(Some((
+            "hang".to_string(),
+            format!("the case did not finish within {} s", limit.as_secs()),
+        )));
+    }
     let stdout = String::from_utf8_lossy(&out.stdout);
     for line in stdout.lines() {
         if let Some(rest) = line.strip_prefix("R ") {
@@ -738,7 +824,7 @@ pub fn persist_violation(
     config: &str,
     launcher: &Launcher,
 ) -> Result<Finding, String> {
-    let crash = v.class == "crash";
+    let crash = v.class == "crash" || v.class == "hang";
     let budget = if crash {
         if *launcher == Launcher::Miri {
             8
